@@ -22,6 +22,8 @@ func BlockDepositsType(spec *common.Spec) ListTypeDef {
 type Deposits []common.Deposit
 
 func (a *Deposits) Deserialize(spec *common.Spec, dr *codec.DecodingReader) error {
+	// decode into a recycled object: drop what it holds (dr.List appends)
+	*a = (*a)[:0]
 	return dr.List(func() codec.Deserializable {
 		i := len(*a)
 		*a = append(*a, common.Deposit{})
